@@ -113,9 +113,20 @@ func (r *poolRecorder) clear() { r.payloads, r.dsts = nil, nil }
 
 var poolSlow int32 // the recorder yields inside Write, keeping the caller's PrintCtx busy for longer
 
+// pile-up: the first poolPile calls to arrive inside Write are held there until all of them are inside (or 3 s
+// passed), so that many calls of one logger are in flight at the same moment
+var poolPile, poolInside int32
+
 func (r *poolRecorder) Write(p []byte) (int, error) { return r.writeFrom(0, p) }
 
 func (r *poolRecorder) writeFrom(dst int, p []byte) (int, error) {
+	if want := atomic.LoadInt32(&poolPile); want > 0 {
+		atomic.AddInt32(&poolInside, 1)
+		deadline := time.Now().Add(3 * time.Second)
+		for atomic.LoadInt32(&poolInside) < want && time.Now().Before(deadline) {
+			time.Sleep(200 * time.Microsecond)
+		}
+	}
 	if atomic.LoadInt32(&poolSlow) != 0 {
 		runtime.Gosched()
 		if len(p)%3 == 0 {
@@ -279,6 +290,13 @@ func poolStress(args []string) int {
 	seed, _ := strconv.ParseInt(args[3], 10, 64)
 	mode := args[4]
 	nLoggers := 1 + int(seed%8)
+	pile := int32(0)
+	if strings.HasPrefix(mode, "pileup") {
+		// ONE logger, most of the goroutines inside its destination's Write at the same moment
+		nLoggers = 1
+		pile = int32(G) * 5 / 6
+		mode = "trace" + strings.TrimPrefix(mode, "pileup")
+	}
 	env := newPoolEnv(nLoggers)
 	slog.SetFlags(slog.LstdFlags | slog.LnoInterrupt)
 	if strings.HasSuffix(mode, "+rare") {
@@ -423,6 +441,8 @@ func poolStress(args []string) int {
 	}
 
 	// ---- concurrent phase
+	atomic.StoreInt32(&poolInside, 0)
+	atomic.StoreInt32(&poolPile, pile)
 	var wg sync.WaitGroup
 	start := make(chan struct{})
 	for g := 0; g < G; g++ {
@@ -440,6 +460,7 @@ func poolStress(args []string) int {
 	}
 	close(start)
 	wg.Wait()
+	atomic.StoreInt32(&poolPile, 0)
 	slog.VerifHook = nil
 	concurrent := env.rec.payloads
 	concurrentDst := env.rec.dsts
